@@ -12,6 +12,7 @@ import PygVerif.Model.ZipTree
 import PygVerif.Model.Frame
 import PygVerif.Model.Site
 import PygVerif.Model.Serve
+import PygVerif.Model.Log
 import PygVerif.Driver.TalIO
 /-!
 # Driver — line protocol between the Python harness and the executable model
@@ -184,6 +185,8 @@ def step (fields : List String) : String :=
   | ["vsplit", s] => let (a, b) := virtualSplit (decStr s); encStr a ++ "\t" ++ encStr b
   | ["fspath", r, s] => encOpt (fspath (decStr r) (decStr s))
   | ["htmlescape", q, s] => encStr (htmlEscape (decBool q) (decStr s))
+  | ["syslogtext", s] => encStr (syslogText (decStr s))
+  | ["logfilebytes", s] => encOpt (logFileBytes (decStr s))
   | ["strip", s] => encStr (strip (decStr s))
   | ["rstrip", s] => encStr (rstrip (decStr s))
   | ["splitlines", s] => encList (splitlines (decStr s))
